@@ -130,9 +130,11 @@ const LayoutVariants = 3
 
 // Features of the "odd" spelling; OddMask can switch them off one at a time to attribute a failure.
 const (
-	OddGoCodeTwo   = 1 << iota // two statements on one line inside {{ }}
-	OddCondOneLine             // conditional attribute written on one line
-	OddAll         = OddGoCodeTwo | OddCondOneLine
+	OddGoCodeTwo        = 1 << iota // two statements on one line inside {{ }}
+	OddCondOneLine                  // conditional attribute written on one line
+	OddExprComment                  // string expression followed by a block comment inside the braces: { e /* c */ }
+	OddCallBlockOneLine             // component call with a child block written on one line: @wrap() { <b>x</b> }
+	OddAll              = OddGoCodeTwo | OddCondOneLine | OddExprComment | OddCallBlockOneLine
 )
 
 type printer struct {
@@ -168,8 +170,11 @@ func num(id string) string { return id[1:] }
 
 func (p *printer) expr(id string) string {
 	call := "env." + id[:1] + "(" + num(id) + ")"
-	// (a string expression with a trailing line comment, `{ e // c <newline> }`, parses but its generated Go is not
+	// (a string expression with a trailing LINE comment, `{ e // c <newline> }`, parses but its generated Go is not
 	// gofmt-valid, so it is not an accepted template and is outside the properties' precondition)
+	if p.v == 3 && p.odd&OddExprComment != 0 && id[:1] == "E" {
+		return "{ " + call + " /* c */ }"
+	}
 	switch p.v {
 	case 1:
 		return "{" + call + "}"
@@ -279,7 +284,7 @@ func (p *printer) nodes(ns []Node, depth int) {
 		// templ's parsers for `{ ... }` nodes swallow leading SPACES (openBraceWithOptionalPadding), so spaces
 		// between a node without trailing-space information and a `{` would not be a whitespace node:
 		// write a tab, the class (horizontal) is what the abstract program fixes.
-		if i+1 < len(ns) && (n.K == "slot" || n.K == "hcomment" || n.K == "mcomment" || n.K == "raw" || n.K == "call") && n.After == "h" {
+		if i+1 < len(ns) && (n.K == "slot" || n.K == "hcomment" || n.K == "mcomment" || n.K == "raw" || n.K == "call" || n.K == "callb") && n.After == "h" {
 			switch ns[i+1].K {
 			case "slot", "expr", "gocode":
 				if p.v != 2 {
@@ -377,10 +382,23 @@ func (p *printer) node(n Node, depth int) {
 		}
 		p.ws(n.After, depth)
 	case "callb":
+		if p.v == 3 && p.odd&OddCallBlockOneLine != 0 && oneLineBody(n.Body) {
+			// the whole call on one line: line breaks of the body become spaces (the whitespace CLASS between two
+			// nodes that had whitespace stays "some whitespace", so the denotation is unchanged)
+			p.sb.WriteString("@" + n.Comp + "() { ")
+			for _, k := range n.Body {
+				q := &printer{v: 0}
+				q.node(k, 0)
+				p.sb.WriteString(strings.TrimRight(strings.ReplaceAll(q.sb.String(), "\n", " "), " \t") + " ")
+			}
+			p.sb.WriteString("}")
+			p.ws(n.After, depth)
+			break
+		}
 		p.sb.WriteString("@" + n.Comp + "() {")
 		p.body(n.Body, depth)
 		p.sb.WriteString("}")
-		p.ws("v", depth)
+		p.ws(n.After, depth)
 	case "slot":
 		if p.v == 1 {
 			p.sb.WriteString("{children...}")
@@ -428,6 +446,52 @@ func (p *printer) node(n Node, depth int) {
 	default:
 		panic("unknown node kind " + n.K)
 	}
+}
+
+// oneLineBody reports whether a call block can be written on one line: only simple nodes that each end their
+// line in the abstract program (so joining them with spaces keeps every whitespace class) and contain no line breaks.
+func oneLineBody(ns []Node) bool {
+	if len(ns) == 0 {
+		return false
+	}
+	for _, n := range ns {
+		switch n.K {
+		case "text", "expr", "void":
+			if n.Tr != "v" {
+				return false
+			}
+		case "el":
+			if n.Tr != "v" || n.Lead == "v" || !oneLineKids(n.Kids) {
+				return false
+			}
+		default:
+			return false
+		}
+	}
+	return true
+}
+
+func oneLineKids(ns []Node) bool {
+	for _, n := range ns {
+		switch n.K {
+		case "text", "expr", "void":
+			if n.Tr == "v" {
+				return false
+			}
+		case "el":
+			if n.Tr == "v" || n.Lead == "v" || !oneLineKids(n.Kids) {
+				return false
+			}
+		default:
+			return false
+		}
+		for _, a := range n.Attrs {
+			if a.A == "cond" {
+				return false
+			}
+		}
+	}
+	return true
 }
 
 // kids prints a child list; the whitespace after the last child is followed by the parent's closer,
